@@ -60,6 +60,18 @@ def run(chk, repo, tier):
 
     from .common import self_delegation_forwards
     self_delegation_forwards(chk, repo, 'C15-e', [f'{SPEC}.bin'])
+    # `sample` is overridden by subclasses with another positional order (Blackbody.sample(wave, waveunit, ...)): inside the
+    # class its options are passed by keyword
+    pos_calls = []
+    for g in repo.all_functions():
+        if g.module.name != 'radiometry':
+            continue
+        for n_ in ast.walk(g.node):
+            if isinstance(n_, ast.Call) and isinstance(n_.func, ast.Attribute) and n_.func.attr == 'sample' and len(n_.args) > 1 \
+                    and isinstance(n_.func.value, ast.Name) and n_.func.value.id in ('self', 's1', 's2', 'other', 'spectrum', 'qe'):
+                pos_calls.append(f'{g.key} at {g.loc(n_)}: `{g.module.segment(n_)[:60]}`')
+    chk.ob('C15-e', 'B3-binding', SPEC, 'options of sample() are passed by keyword', not pos_calls,
+           '; '.join(pos_calls[:2]) + (': a Blackbody takes the second positional argument as the wavelength unit' if pos_calls else ''), '')
     cls = repo.cls(SPEC)
     # ---------------------------------------------------------------- C15-a
     setter = cls.find_setter('wave')
@@ -233,6 +245,12 @@ def run(chk, repo, tier):
         sel = [a for a in nf.value_atoms(p.ret) if is_app(a, ('nonzero', 'where', 'argwhere'))]
         cmps = [x for x in nf.value_atoms(p.ret) if is_app(x, ('lt', 'le', 'eq', 'ne')) and ('sym', 'tol') in nf.value_atoms(Poly.atom(x))]
         oke = bool(sel) and bool(cmps) and all(x[1] == 'lt' and x[2][0] == S('tol') for x in cmps)
+        # ... of the values themselves relative to their maximum (magnitudes instead of values keep negative end samples)
+        if oke:
+            vals = {nf.attr(SELF, 'value'), nf.attr(SELF, '_value')}
+            norm = {v / nf.app(mx, v) for v in vals for mx in ('max', 'amax')}
+            if not all(x[2][1] in norm for x in cmps):
+                oke = False if any(is_app(y, ('abs', 'absolute', 'fabs')) for x in cmps for y in nf.value_atoms(x[2][1])) else None
     chk.ob('C15-d', 'T-comparison', fe.key, 'samples strictly above the relative tolerance', oke, '', fe.loc())
 
     # append
@@ -257,6 +275,18 @@ def run(chk, repo, tier):
             okc = wa is not None and is_app(wa, 'append') and len(wa[2]) == 2 and \
                 wa[2][0] in (nf.attr(tgt, 'wave'), nf.attr(tgt, '_wave')) and wa[2][1] in sattr('wave', S('other'))
         chk.ob('C15-b', 'D-pairing', f.key, f'wave and value appended together [{label}]', okb, '', f.loc())
+        # the grid goes through its validating setter first: a refused grid (interleaving wavelengths) leaves the spectrum as it
+        # was instead of with more values than wavelengths
+        order_ok = None
+        for p in [x for x in pp if x.status != 'raise']:
+            idx = {}
+            for i_, e in enumerate(p.events):
+                if e.kind == 'write' and e.data.get('how') == 'attrstore' and e.data.get('attr') in ('wave', 'value') and e.depth == 0:
+                    idx.setdefault(e.data['attr'], i_)
+            if set(idx) == {'wave', 'value'}:
+                order_ok = (idx['wave'] < idx['value']) if order_ok in (None, True) else order_ok
+        chk.ob('C15-b', 'D-order', f.key, f'the validated grid is stored before the values [{label}]', order_ok,
+               '' if order_ok else 'the values are replaced before the wave setter has accepted the new grid', f.loc())
         chk.ob('C15-c', 'D-selection', f.key, f'original samples kept in front, the other spectrum\'s behind [{label}]', okc, '', f.loc())
 
     # pad
